@@ -24,9 +24,10 @@ MCProtTagsOf == [p \in Peers |-> IF p \in Prot2 THEN {"x", "y"} ELSE IF p \in Pr
 
 \* JSON-able projection of the VIEW'd state, kept compact because every printed edge carries two of
 \* them: << [peer |-> <<kind, conns, tags, value, age, protection tags, decaying tag>>], connCount, phase, dph,
-\*          trim in progress <<on, candidates, stale, target, foreign steps>> >>
+\*          trim in progress <<on, candidates, stale, target, foreign steps>>,
+\*          decaying tag <<decay function, bump function, closed>> >>
 St == << [p \in Peers |-> <<kind[p], cs[p], tg[p], val[p], age[p], prot[p], dec[p]>>], count, phase, dph,
-         <<tr.on, tr.c, tr.s, tr.n, tr.b>> >>
+         <<tr.on, tr.c, tr.s, tr.n, tr.b>>, <<dcfg.d, dcfg.b, dcfg.closed>> >>
 EmitEdge == PrintT(<<"VFEDGE", ToJson([s |-> St, op |-> op', t |-> St'])>>)
 \* the instance's parameters, printed once so that the driver hands the harness exactly what TLC used
 Conf == [low |-> Low, high |-> High, grace |-> Grace, maxage |-> MaxAge, silence |-> Silence,
